@@ -663,6 +663,67 @@ func stalledProducer(m *meta, rng *rand.Rand, round int) {
 	m.count("stalled_producer_rounds")
 }
 
+// syncOvertake (C04, deterministic): SetAsync(k,2) is queued BEHIND a slot that another producer reserved but has
+// not published, and returns; a synchronous Set(k,5) that starts afterwards must not be overwritten by it
+// (schedule of QueueLts realtime_order_refuted, finding F13). The Set runs as a scheduled thread so that a
+// repaired syncMutate, which waits for the reservation to be published, can be stepped around.
+func syncOvertake(m *meta, rng *rand.Rand, round int) {
+	conf := kioshun.Config{ShardCount: 1, EvictionPolicy: pick(rng, []kioshun.EvictionPolicy{kioshun.LRU, kioshun.SieveTinyLFU, kioshun.FIFO, kioshun.LFU}), WriteBufferSize: pick(rng, []int{2, 4, 8}), WriteBatchSize: pick(rng, []int{1, 2, 64})}
+	useDelete := rng.Intn(3) == 0
+	ctx := fmt.Sprintf("sync overtake round %d delete=%v cfg %+v", round, useDelete, conf)
+	c, err := kioshun.New[int, int](conf)
+	must(err)
+	watch(ctx)
+	defer unwatch()
+	kioshun.VerifSchedReset(true, 300*time.Millisecond)
+	defer kioshun.VerifSchedReset(false, 0)
+	kioshun.VerifSchedSpawn(1, func() { c.Set(900, 1, kioshun.NoExpiration) })
+	if p := stepUntil(1, 332); p != 332 {
+		m.count("overtake_setup_failed")
+		return
+	}
+	kioshun.VerifSchedSpawn(2, func() { c.SetAsync(901, 1, kioshun.NoExpiration) })
+	if p := stepUntil(2, 104); p != 104 {
+		m.count("overtake_setup_failed")
+		stepUntil(1, -100)
+		stepUntil(2, -100)
+		return
+	}
+	stepUntil(1, -100) // the token is free again; P2 still holds an unpublished reservation
+	if e := c.SetAsync(7, 2, kioshun.NoExpiration); e != nil {
+		m.violate("C04", ctx+": SetAsync failed", ctx)
+	}
+	// SetAsync(7,2) has returned. Now the synchronous mutation begins.
+	var delRes bool
+	kioshun.VerifSchedSpawn(3, func() {
+		if useDelete {
+			delRes = c.Delete(7)
+		} else {
+			c.Set(7, 5, kioshun.NoExpiration)
+		}
+	})
+	p3 := stepUntil(3, -100)
+	stepUntil(2, -100) // the stalled producer publishes
+	if p3 != kioshun.VerifStepDone {
+		p3 = stepUntil(3, -100)
+	}
+	kioshun.VerifSchedReset(false, 0)
+	if p3 != kioshun.VerifStepDone {
+		m.violate("C07", fmt.Sprintf("%s: the synchronous mutation did not return after the stalled producer published (step result %d)", ctx, p3), ctx)
+	}
+	c.Sync()
+	v, ok := c.Get(7)
+	if useDelete {
+		if ok {
+			m.violate("C04", fmt.Sprintf("%s: SetAsync(7,2) returned before Delete(7) was called (Delete returned %v), yet after Sync the key holds %d", ctx, delRes, v), ctx)
+		}
+	} else if !ok || v != 5 {
+		m.violate("C04", fmt.Sprintf("%s: SetAsync(7,2) returned before Set(7,5) was called, yet after Sync the key holds (%d,%v)", ctx, v, ok), ctx)
+	}
+	c.Close()
+	m.count("sync_overtake_rounds")
+}
+
 // flickerProbe replays the schedule of C02.v's c02_atomic_refuted on the real cache through the yield hooks:
 // a reader parked after loading a matching tag, the key deleted and re-inserted into the same slot, the
 // writer parked between publish's item store and tag store. Finding F10 when it reproduces.
@@ -928,6 +989,7 @@ func streamConc(o opts) {
 			}
 			expiryRace(m, rng, r)
 			stalledProducer(m, rng, r)
+			syncOvertake(m, rng, r)
 			m.nontrivial(fmt.Sprintf("async+close/%d", r%16))
 		case 3:
 			tableRace(m, rng, r)
